@@ -67,7 +67,15 @@ def outer_partial(n):
   return posonly_defaults(helper_partial(n), 3, bias=helper(n), mode=[helper_partial(n + 1)])
 
 
-def bind_canon(x):
+def _unbound_callable(v):
+  if isinstance(v, (Rec, Tok)):
+    return False
+  if isinstance(v, functools.partial):
+    return not v.args and not v.keywords and _unbound_callable(v.func)
+  return inspect.isfunction(v) or inspect.isclass(v)
+
+
+def bind_canon(x, unbound_identity=True):
   """Canonical form in which callables appearing as values (functions, classes and
   functools.partial objects) print as (underlying callable, full binding after bind_partial +
   apply_defaults): partial(f) == f, partial(f, 1) == partial(f, a=1)."""
@@ -80,6 +88,14 @@ def bind_canon(x):
     if graphs.is_internable(v):
       # tuples of literals may be interned by Python: never counted as shared
       return ['ituple', [go(x) for x in v]]
+    if not unbound_identity and _unbound_callable(v):
+      # a bare function / class, or a partial that binds nothing: interchangeable with the
+      # callable itself (replace_unconfigured_partials does exactly that), so whether two
+      # positions hold "the same" one is not an observable
+      func = v
+      while isinstance(func, functools.partial):
+        func = func.func
+      return ['callable0', graphs.callable_name(func)]
     if id(v) in seen:
       return ['^', seen[id(v)]]
     n = len(seen)
@@ -188,10 +204,10 @@ def has_explicit_equal_mutable_default(root):
   return False
 
 
-def build_canon(c):
+def build_canon(c, unbound_identity=True):
   del targets.LOG[:]
   try:
-    return bind_canon(fdl.build(c))
+    return bind_canon(fdl.build(c), unbound_identity)
   except Exception as e:
     return {'raised': type(e).__name__}
 
@@ -447,7 +463,10 @@ def execute(case):
     obs.update(before=bind_canon(x), after=bind_canon(built), equal=(built == x))
     return obs, None
   root = make_root(case)
-  base = build_canon(root)
+  # replace_unconfigured_partials turns every Partial that binds nothing into the callable itself:
+  # which positions hold "the same" unbound callable is not compared for it
+  ui = name != 'replace_unconfigured_partials'
+  base = build_canon(root, ui)
   was_serializable = serializable(root)
   keep = graphs.canon(root)
   try:
@@ -456,7 +475,7 @@ def execute(case):
     obs['raised'] = f'{type(e).__name__}: {e}'[:200]
     return obs, None
   obs['before'] = base
-  obs['after'] = build_canon(t)
+  obs['after'] = build_canon(t, ui)
   if name.startswith('with_defaults_trimmed') and obs['before'] != obs['after']:
     obs['only_sharing_differs'] = (not isinstance(obs['after'], dict)
                                    and expand(obs['before']) == expand(obs['after']))
